@@ -215,12 +215,7 @@ func c11Forms(c *Ctx, p *Prog, fn *ssa.Function) {
 		}
 	}
 	// region: from the block that computes U1 (first block after the rank loops that dominates the returns of results)
-	var start *ssa.BasicBlock
-	eachInstr(fn, func(b *ssa.BasicBlock, in ssa.Instruction) {
-		if call, ok := in.(*ssa.Call); ok && objIs(calleeObj(&call.Call), "math", "", "Min") && start == nil {
-			start = b
-		}
-	})
+	start := c11AfterRanking(fn)
 	if start == nil {
 		c.Undecided(R, "forms:region", site, "cannot locate the block computing the U statistics")
 		return
@@ -665,12 +660,7 @@ func c11Ties(c *Ctx, p *Prog, fn *ssa.Function) {
 	const R = "C11/R4"
 	site := p.pos(fn.Pos())
 	// (a) exact iff within the applicable limit: evaluate the dispatch condition's table
-	var start *ssa.BasicBlock
-	eachInstr(fn, func(b *ssa.BasicBlock, in ssa.Instruction) {
-		if call, ok := in.(*ssa.Call); ok && objIs(calleeObj(&call.Call), "math", "", "Min") && start == nil {
-			start = b
-		}
-	})
+	start := c11AfterRanking(fn)
 	if start != nil {
 		stop := map[*ssa.BasicBlock]bool{}
 		for _, b := range fn.Blocks {
@@ -1146,6 +1136,49 @@ func c11Choose(c *Ctx, p *Prog) {
 	}
 	nParam := fn.Params[0]
 	n := 0
+	// the product may sit in a helper that mathChoose calls with its own n: then the bound must hold at the call
+	eachInstr(fn, func(b *ssa.BasicBlock, in ssa.Instruction) {
+		call, ok := in.(*ssa.Call)
+		if !ok {
+			return
+		}
+		h := call.Call.StaticCallee()
+		if h == nil || h.Pkg != fn.Pkg || h.Blocks == nil || len(call.Call.Args) == 0 || call.Call.Args[0] != ssa.Value(nParam) {
+			return
+		}
+		hasProd := false
+		for _, lp := range naturalLoops(h) {
+			for hb := range lp.Blocks {
+				for _, hin := range hb.Instrs {
+					if bo, ok := hin.(*ssa.BinOp); ok && bo.Op == token.MUL && isInteger(bo.Type()) {
+						hasProd = true
+					}
+				}
+			}
+		}
+		if !hasProd {
+			return
+		}
+		n++
+		bounded := false
+		for _, f := range factsAt(b) {
+			cmp, ok := f.Cond.(*ssa.BinOp)
+			if !ok {
+				continue
+			}
+			x, y := stripConvInt(cmp.X), stripConvInt(cmp.Y)
+			ky, oky := constInt(y)
+			kx, okx := constInt(x)
+			switch {
+			case x == ssa.Value(nParam) && oky && ((cmp.Op == token.LEQ && f.True && ky <= 20) || (cmp.Op == token.LSS && f.True && ky <= 21) || (cmp.Op == token.GTR && !f.True && ky <= 20) || (cmp.Op == token.GEQ && !f.True && ky <= 21)):
+				bounded = true
+			case y == ssa.Value(nParam) && okx && ((cmp.Op == token.GEQ && f.True && kx <= 20) || (cmp.Op == token.GTR && f.True && kx <= 21) || (cmp.Op == token.LSS && !f.True && kx <= 20) || (cmp.Op == token.LEQ && !f.True && kx <= 21)):
+				bounded = true
+			}
+		}
+		c.Check(bounded, R, fmt.Sprintf("mathChoose:product#%d", n), p.pos(call.Pos()), "the integer product (in "+h.Name()+") runs only for n <= 20",
+			"the exact integer product n(n-1)...(n-k+1) is not guarded by n <= 20 (20! is the largest factorial below 2^63): for pooled sizes above 20 the product overflows int64 and the tie-aware counts, hence exact p-values, are garbage (even negative)")
+	})
 	for _, lp := range naturalLoops(fn) {
 		for b := range lp.Blocks {
 			for _, in := range b.Instrs {
@@ -1333,4 +1366,61 @@ func c11Hygiene(c *Ctx, p *Prog) {
 	}
 	c.OK(R, "hygiene:scan", "", fmt.Sprintf("%d functions of the exact test, %d min/max calls, %d integer table recurrences", len(fns), nMM, nTab))
 	c.Floor(R, "functions of the exact test scanned", len(fns), 8)
+}
+
+// c11AfterRanking: the first block after the ranking loops that every successful return of the test passes.
+func c11AfterRanking(fn *ssa.Function) *ssa.BasicBlock {
+	var start *ssa.BasicBlock
+	{
+		loops := naturalLoops(fn)
+		inLoop := func(b *ssa.BasicBlock) bool {
+			for _, l := range loops {
+				if l.Blocks[b] {
+					return true
+				}
+			}
+			return false
+		}
+		var okRets []*ssa.BasicBlock
+		for _, b := range fn.Blocks {
+			if ret, ok := b.Instrs[len(b.Instrs)-1].(*ssa.Return); ok && len(ret.Results) == 2 {
+				if k, ok := ret.Results[1].(*ssa.Const); ok && k.IsNil() {
+					okRets = append(okRets, b)
+				}
+			}
+		}
+		var cands []*ssa.BasicBlock
+		for _, b := range fn.Blocks {
+			if inLoop(b) {
+				continue
+			}
+			all := len(okRets) > 0
+			for _, r := range okRets {
+				if !(b == r || b.Dominates(r)) {
+					all = false
+				}
+			}
+			// after the loops: every loop header reaches it
+			for _, l := range loops {
+				if !reachFrom(l.Header, nil)[b] {
+					all = false
+				}
+			}
+			if all {
+				cands = append(cands, b)
+			}
+		}
+		for _, b := range cands {
+			first := true
+			for _, o := range cands {
+				if o != b && o.Dominates(b) {
+					first = false
+				}
+			}
+			if first {
+				start = b
+			}
+		}
+	}
+	return start
 }
